@@ -573,7 +573,8 @@ class Interp:
         if k == "unop":
             v = self.operand(st, fr, r["o"])
             if r["op"] == "Not":
-                if is_int(v) and v[1] in (0, 1):
+                is_bool = "ty" not in r or self.prog.ty(r["ty"]).get("k") == "bool"
+                if is_int(v) and v[1] in (0, 1) and is_bool:
                     return I(1 - v[1])
                 if v[0] == "cmp":
                     inv = {"Eq": "Ne", "Ne": "Eq", "Lt": "Ge", "Ge": "Lt", "Gt": "Le", "Le": "Gt"}
